@@ -932,8 +932,13 @@ class _GenerateRenderMethod:
         pass
 
     def visitBlockTag(self, node):
+        # a buffered block returns its content rather than writing it
+        if eval(node.attributes.get("buffered", "False")):
+            call = "__M_writer(%s)"
+        else:
+            call = "%s"
         if node.is_anonymous:
-            self.printer.writeline("%s()" % node.funcname)
+            self.printer.writeline(call % ("%s()" % node.funcname))
         else:
             nameargs = node.get_argument_expressions(as_call=True)
             nameargs += ["**pageargs"]
@@ -942,7 +947,11 @@ class _GenerateRenderMethod:
                 "not hasattr(context._data['parent'], '%s'):" % node.funcname
             )
             self.printer.writeline(
-                "context['self'].%s(%s)" % (node.funcname, ",".join(nameargs))
+                call
+                % (
+                    "context['self'].%s(%s)"
+                    % (node.funcname, ",".join(nameargs))
+                )
             )
             self.printer.writeline("\n")
 
